@@ -271,6 +271,11 @@ func makeTarget(
 				"unexpected path variable %q: cannot be a repeated field",
 				variable.fieldPath,
 			)
+		} else if last.Cardinality() == protoreflect.Repeated {
+			return nil, fmt.Errorf(
+				"unexpected path variable %q: cannot be a map field",
+				variable.fieldPath,
+			)
 		}
 		routeTargetVars[i] = routeTargetVar{
 			pathVariable: variable,
